@@ -9,7 +9,7 @@ TECH = "SMT-based bounded symbolic execution of the repository's go/ssa (gosym: 
 CLAIMS = {
  "C04": dict(
   text="Bounded symbolic execution of (*Pipeline).Interpolate, every per-type interpolate method and the generic walkers (interpolateAny/Slice/Map/MapValues/OrderedMap) from the current SSA. A populated instance of every step kind with a distinct string in every string position is run through the real envInterpolator (the interpolate library replaced by a natively validated Go model) and each position must equal the single-pass expansion; the walkers are run with a marking transformer (injective, not idempotent) on arbitrary small trees against an independently built expected tree. Go's map-iteration nondeterminism (all orders; entries inserted during iteration produced or skipped) is explored as fork choices, which is what exposes order-dependent double expansion that a native run shows only on large maps.",
-  note="Bounds: one instance per step kind, maps <= 2 entries, trees of depth 1 (quick) / 2 (thorough), strings of <= 1 symbolic byte plus concrete tags. Trusted: gosym's Go semantics (sampled paths replayed natively), vpModelInterpolate for buildkite/interpolate (validated natively on ~2M strings per run). Outside: brace operations of the interpolate library, deeper trees, shared subtrees, post-expansion key collisions.",
+  note="Bounds: one instance per step kind, maps <= 2 entries, trees of depth 1 (quick) / 2 (thorough), strings of <= 1 symbolic byte plus concrete tags; the walkers run with two transformers (append-a-marker, and a byte shift whose renames chain: the image of one key can be the original spelling of another). Trusted: gosym's Go semantics (sampled paths replayed natively), vpModelInterpolate for buildkite/interpolate (validated natively on ~2M strings per run). Outside: brace operations of the interpolate library, deeper trees, shared subtrees, post-expansion key collisions.",
   ref="DESIGN.md §5 C04"),
  "C05": dict(
   text="Bounded symbolic execution of the real SSA of ordered.Map (Set, Replace, Delete, compact, Len, IsZero, Get, Contains, Range, ToMap, ToMapRecursive, MarshalJSON, MarshalYAML, Equal): an SMT solver decides every branch and assertion, so each result holds for all keys, values, tombstone patterns and operation arguments within the slot bound. The mutators are checked as one inductive step from an arbitrary state satisfying the representation invariant (which is exactly the set of reachable states), so histories of any length are covered up to the slot bound; a bounded-history harness through the public API cross-checks the invariant.",
@@ -17,7 +17,7 @@ CLAIMS = {
   ref="DESIGN.md §5 C05"),
  "C07": dict(
   text="Bounded symbolic execution of DecodeYAML/decodeYAML/rangeYAMLMap(Impl)/canonicalMapKey on symbolic yaml.Node graphs (what yaml.v3's parser hands over): merge chains and arbitrary small graphs with value aliases (including self and mutual cycles), aliases inside sequences, aliases as keys, merges by alias / sequence of aliases / inline mapping. The oracle is an independent recursive reference of the YAML merge rules plus a value-cycle classification: error iff a value cycle exists, otherwise content and key order equal the reference and every alias expands to a distinct object.",
-  note="Bounds: root <= 2 entries, <= 1 (quick) / 2 (thorough) anchored mappings of <= 2 entries, keys of 0/1 symbolic bytes, recursion depth bounded by the engine's call-depth check. Trusted: yaml.Node.Decode on !!str scalars yields Value. Outside: the yaml.v3 scanner/parser (bytes -> nodes), non-string key tags, expansion-size blow-up, duplicate explicit keys.",
+  note="Bounds: root <= 2 entries, one anchored mapping of 1 entry (which may be a nested mapping merging or aliasing its ancestor) or 2 entries (quick); thorough adds two anchors; keys and anchor names of 0/1 symbolic bytes. Exceeding the call-depth bound (400) on these finite graphs is reported as non-termination and confirmed natively (stack overflow in an isolated process). Trusted: yaml.Node.Decode on !!str scalars yields Value. Outside: the yaml.v3 scanner/parser (bytes -> nodes), non-string key tags, expansion-size blow-up, duplicate explicit keys.",
   ref="DESIGN.md §5 C07"),
  "C08": dict(
   text="Bounded symbolic execution of the decode side (DecodeYAML key order incl. merge position, Map[string,string].UnmarshalOrdered, Plugins.UnmarshalOrdered on the one-mapping form, Pipeline.UnmarshalOrdered for the env block) and the ordered emitters (Map.MarshalJSON segment order, Map.MarshalYAML Content order, Pipeline.MarshalJSON env member order in the JSON data model) for every key set within the bound; a programmatically built map survives node-level YAML encode -> decode with ordered.Equal.",
@@ -25,11 +25,11 @@ CLAIMS = {
   ref="DESIGN.md §5 C08"),
  "C10": dict(
   text="Bounded symbolic execution of (*Pipeline).Interpolate / interpolateEnvBlock with ordered.Map.Range/Replace and internal/env.Env against the in-order fold of the property statement: symbolic env block entries drawn from the interpolation sub-grammar (literal, $V, ${V}, $$V, names built by expansion), symbolic caller environment, both precedence settings, case-sensitive and case-insensitive caller env, a later step string.",
-  note="Bounds: 2 entries, <= 1 (quick) / 2 (thorough) caller variables, one-letter variable names over {A,B,a,b}. Trusted: vpModelInterpolate (natively validated), strings.ToUpper modelled bytewise. Outside: brace operations, post-expansion name collisions, longer blocks.",
+  note="Bounds: 2 entries, <= 1 caller variable, one-letter names and values over {A,B,a} (+x), so expanded names hit caller variables and case folding matters; thorough adds the escaped and braced value shapes; a second harness covers names that collide after expansion (3 / 4 entries). Trusted: vpModelInterpolate (natively validated), strings.ToUpper modelled bytewise. Outside: brace operations, post-expansion name collisions, longer blocks.",
   ref="DESIGN.md §5 C10"),
  "C11": dict(
   text="Bounded symbolic execution of (*Matrix).validatePermutation, (*MatrixAdjustment).ShouldSkip and (*CommandStep).InterpolateMatrixPermutation against the property sentence written as an independent predicate over lists (the oracle never ranges over a Go map), for every matrix, adjustment list and permutation within the bounds and every Go map iteration order; a rejected permutation leaves command, label, key, env, plugins and matrix untouched.",
-  note="Bounds: (<=2 dims, <=1 adj) and (<=1 dim, <=2 adj) quick; (<=2 dims, <=2 adj) and (<=1 dim, <=3 adj) thorough; value lists of 0-2 values, tuple arity within one of the number of dimensions, every skip kind. Outside: nil value lists (`dim: null`), larger matrices.",
+  note="Bounds: (<=2 dims, <=1 adj) and (<=1 dim, <=2 adj) quick; (<=2 dims, <=2 adj) and (<=1 dim, <=3 adj) thorough; value lists of 0-2 values, tuple arity within one of the number of dimensions, every skip kind; c11_tuple: two dimensions with values of 1 or 5 (7) symbolic bytes over the characters that occur as constants in step_command_matrix.go (tuple equality must be per dimension). Outside: nil value lists (`dim: null`), larger matrices.",
   ref="DESIGN.md §5 C11"),
  "C12": dict(
   text="Three obligations. (1) Unbounded: the token pattern found in the package initialiser's SSA is translated to an SMT RegLan and proved language-equivalent to the property's token grammar (z3 5.1.0 and cvc5; a witness is replayed through the real Transform). (2) Bounded symbolic execution of newMatrixInterpolator/Transform (regexp executed by a leftmost-first backtracking matcher over the code's own pattern) on literal-token-literal inputs with dangerous literals against a hand-written scanner of the property grammar: single pass, error iff unknown dimension. (3) Field scope of InterpolateMatrixPermutation on a command step.",
@@ -41,7 +41,7 @@ CLAIMS = {
   ref="DESIGN.md §5 C15"),
  "C17": dict(
   text="Bounded symbolic execution of (*Plugin).FullSource (and MarshalYAML's key) on every source up to the length bound over [ab0._/-#:@\\\\] inside the documented forms, against the documented rules written as whole-string predicates; FullSource(FullSource(s)) == FullSource(s). net/url.Parse and path.Join are replaced by Go-written models that are validated natively against the real libraries on every run.",
-  note="Bounds: sources of <= 8 (quick) / 12 (thorough) bytes. Trusted: vpModelURLParse and vpModelPathJoin (0 mismatches on 0.5M-3M strings per run). Outside: longer sources, percent-encoding, query strings, refs/names with empty or dot-only components (outside the property).",
+  note="Bounds: every source of <= 8 (quick) / 12 (thorough) bytes, plus sources assembled from symbolic pieces and the string constants found in FullSource's current SSA (c17_dictionary: suffixes, hosts, separators at any length). Trusted: vpModelURLParse and vpModelPathJoin (0 mismatches on 0.5M-3M strings per run). Outside: longer sources, percent-encoding, query strings, refs/names with empty or dot-only components (outside the property).",
   ref="DESIGN.md §5 C17"),
  "C18": dict(
   text="Bounded symbolic execution of jwkutil.Validate, concat, the allow-list tables (read from the package initialiser) and LoadKey/fromIdOrOnlyKey on abstract jwk.Key / jwk.Set objects with symbolic attributes: structural validity, algorithm presence, algorithm kind (signature / key-encryption / invalid) with a symbolic name of <= 8 bytes, symbolic key type; key sets of <= 2 / 3 keys with symbolic ids and a symbolic requested id. Counterexamples are replayed with real jwx keys.",
@@ -52,7 +52,7 @@ CLAIMS = {
   note="Partial by construction: goroutine interleavings are not symbolic variables here and the race detector is not the instrument; the claim is `no write`, not an exploration of schedules. Sign/Verify not writing the step or env is decided under C06. Stores in functions that use sync/atomic primitives are reported as inconclusive, not as violations.",
   ref="DESIGN.md §5 C19"),
  "C01": dict(
-  text="Bounded symbolic execution of signature.Sign, Verify, ValuesForFields, SignedFields, requireKeys, canonicalPayload, EmptyToNil* and the Plugin/Matrix marshalers: a step is signed, then a presented world that differs from the signed one in exactly one of 23 ways (command, step env, plugin sequence, matrix, repository URL, signed pipeline variable, algorithm string, signed-field list, signature value forged or spliced from another step, another key) is verified and must be rejected; the untouched world (with unrelated env variables) must verify. Strings are symbolic. JWK keys for EdDSA/ES512/PS512 and an ES256 crypto.Signer. Counterexamples are replayed with real generated keys.",
+  text="Bounded symbolic execution of signature.Sign, Verify, ValuesForFields, SignedFields, requireKeys, canonicalPayload, EmptyToNil* and the Plugin/Matrix marshalers: a step is signed, then a presented world that differs from the signed one in exactly one of 23 ways (command, step env, plugin sequence, matrix, repository URL, signed pipeline variable, algorithm string, signed-field list, signature value forged or spliced from another step, another key) is verified and must be rejected; the untouched world (with unrelated env variables) must verify. A second configuration signs a matrix that mixes the anonymous dimension with a named one and an adjustment. Strings are symbolic. JWK keys for EdDSA/ES512/PS512 and an ES256 crypto.Signer. Counterexamples are replayed with real generated keys.",
   note="Partial: decides Verify's own logic (payload rebuilt from the presented step, mandatory field set, requireKeys, env shadowing, algorithm bound into the payload) under an ideal signature scheme and an injective canonical encoding. Unforgeability of the real algorithms and byte-level injectivity of json.Marshal+JCS are assumed, not shown. One step shape (2 plugins, 1 env entry), 1-byte symbolic strings; Go map orders fixed in this harness (C14 varies them).",
   ref="DESIGN.md §5 C01"),
  "C03": dict(
@@ -61,19 +61,19 @@ CLAIMS = {
   ref="DESIGN.md §5 C03"),
  "C06": dict(
   text="Bounded symbolic execution of signature.SignSteps, Sign, configureOptions, SignedFields, ValuesForFields, Verify, requireKeys, canonicalPayload over symbolic step lists (command, wait, input, trigger, group, unknown; groups nested), pipeline env / step env overlaps and all four key kinds: refusal iff an unknown step occurs anywhere; otherwise every command step at every depth carries a signature naming the key's algorithm, its signed-field list is exactly the sorted expected list, it verifies (env extended by an unrelated variable), and nothing but Signature fields is written (step scalars, step env, plugins, caller's env map).",
-  note="Bounds: two steps per level at nesting depth 0 (quick) / 1 (thorough) with Go map orders fixed, and one step per level at depth 2 / 3 with all map orders. Real cryptography idealised (replays use real keys).",
+  note="Bounds: two steps per level at nesting depth 0 (quick) / 1 (thorough) with Go map orders fixed, one step per level at depth 2 / 3 with all map orders, and two steps per level inside groups of depth 1 / 2 with minimal command steps (every position of an unknown step relative to groups). Real cryptography idealised (replays use real keys).",
   ref="DESIGN.md §5 C06"),
  "C13": dict(
   text="Bounded symbolic execution of ordered.Unmarshal into Pipeline (Pipeline/Steps/GroupStep.UnmarshalOrdered, unmarshalStep, stepFromMap, NewScalarStep, the reflective unmarshaler, warning.*) on decoded documents whose step sequence mixes valid and invalid scalars, well-formed maps of every kind, ill-typed and unknown-type maps, ints, nulls and (nested) groups, for all four top-level shapes: no panic; a usable result has a non-nil list with exactly one non-nil step per entry in order, recursively in groups; fallbacks hold the original entry verbatim; the warning tree has exactly one leaf per fallback; the result marshals to JSON.",
   note="Partial: the structural half only. `For any byte sequence ... bounded time ... never panics` through yaml.v3's scanner/parser is not encodable and not claimed; YAML marshalling of the result neither. Bounds: <= 2 (quick) / 3 (thorough) entries without nesting, <= 1 / 2 entries with groups of <= 2 children.",
   ref="DESIGN.md §5 C13"),
  "C14": dict(
-  text="Bounded symbolic execution of Sign's payload construction (SignedFields, env:: namespacing, canonicalPayload, EmptyToNil*, Plugin.MarshalJSON/FullSource, Matrix.MarshalJSON) observed where the property observes it - the payload handed to the Logger under WithDebugSigning(true) - for pairs of worlds with symbolic strings: the payloads must be equal for re-orderings (every Go map iteration order is a fork choice), nil vs empty env/plugins/matrix/config and short vs canonical plugin source, and must differ for 14 kinds of single-field and boundary-shifting differences.",
+  text="Bounded symbolic execution of Sign's payload construction (SignedFields, env:: namespacing, canonicalPayload, EmptyToNil*, Plugin.MarshalJSON/FullSource, Matrix.MarshalJSON) observed where the property observes it - the payload handed to the Logger under WithDebugSigning(true) - for pairs of worlds with symbolic strings: the payloads must be equal for re-orderings (every Go map iteration order is a fork choice), nil vs empty env/plugins/matrix/config and short vs canonical plugin source, and must differ for 18 kinds of single-field and boundary-shifting differences (incl. matrices mixing the anonymous and named dimensions, and an empty-valued variable versus no variable); a second configuration observes the payload Verify rebuilds from the presented world.",
   note="Partial: on the JSON data model. json.Marshal+jcs.Transform are assumed to be a function of, and injective on, the data model; number spelling, escaping and UTF-16 key ordering of the byte output are the libraries' and are not covered.",
   ref="DESIGN.md §5 C14"),
  "C16": dict(
   text="Bounded symbolic execution of ordered.Unmarshal / decodeInto / unmarshalScalar / Map.UnmarshalOrdered through reflect (modelled over the engine's typed heap from go/types of the current source) into a family of tagged struct types: plain, aliased, omitempty, `-`, untagged and unexported fields, slices, maps, nested and pointer-to-struct fields, inline map, ordered inline *MapSA and inline pointer-to-struct. Each named key is present / null / absent and free keys of 0-2 symbolic bytes are added; every key must land in exactly one destination, absent keys leave fields untouched, null zeroes them, leftovers keep document order.",
-  note="Partial: the partition rule only. `Equals what yaml.Node.Decode produces` needs yaml.v3's reflective decoder and is not claimed. Bounds: 8 named keys x 3 states plus <= 1 (quick) / 2 (thorough) free keys.",
+  note="Partial: the partition rule only. `Equals what yaml.Node.Decode produces` needs yaml.v3's reflective decoder and is not claimed. Bounds: 8 named keys x 3 states plus <= 1 (quick) / 2 (thorough) free keys, source maps with or without an un-compacted deleted entry; every scalar kind into every scalar-accepting destination.",
   ref="DESIGN.md §5 C16"),
  "C02": dict(
   text="Composition decided by bounded symbolic execution: SignSteps on a symbolic command step from an option lattice (command incl. multi-line, env nil/empty/populated, plugins nil/empty/short/canonical source with every scalar kind in configs, matrix nil/empty/simple/named with adjustments/only adjustments, pipeline env with a shadowed variable, all four key kinds) together with wait and group steps, then json.Marshal, re-parse both ways (CommandStep.UnmarshalJSON and the whole-pipeline path, JSON read as YAML), then Verify with the pipeline env plus an unrelated variable: the signature record is unchanged and verifies, also for the step inside the group.",
